@@ -1077,3 +1077,14 @@ Proof.
   - intros gi dir rows cols M. unfold idk. destruct (Nat.leb_spec rows cols); unfold dK; cbn [fst]; lia.
 Qed.
 
+
+(* ---- variational compression: the convergence test must see a snapshot of the previous sweep ---- *)
+(* generated: variational_old prev cur = the operand `mps_old` of `mps.distance(mps_old)`.  With
+   `mps_old = mps.copy()` it is the previous sweep's state; with an alias (`mps_old = mps`) it is the current
+   object, the distance is that of the object to itself and the test is vacuous (next lemma). *)
+Lemma variational_old_is_snapshot (A : Type) (prev cur : A) : variational_old prev cur = prev.
+Proof. reflexivity. Qed.
+
+Lemma alias_test_vacuous (A D : Type) (dist : A -> A -> D) (z : D) :
+  (forall x, dist x x = z) -> forall prev cur : A, dist cur (if false then prev else cur) = z.
+Proof. intros H prev cur. apply H. Qed.
